@@ -22,12 +22,12 @@ Proof.
   unfold item_c. rewrite just_c_ok, vp_c_ok. cbn [bind]. rewrite (map_c_ok _ _ (map_c_ok _ _ run_c_ok)). reflexivity.
 Qed.
 (* for EVERY Go-shaped cue list, nil elements included *)
-Theorem items_c_ok (l : list (option gitem)) : items_c l = Ok (map item_flat (somes l)).
+Theorem items_c_ok (l : list (option gsitem)) : items_c l = Ok (map item_flat (somes l)).
 Proof. unfold items_c. apply map_c_ok. exact item_c_ok. Qed.
-Theorem items_c_no_panic (l : list (option gitem)) s : items_c l <> Panic s.
+Theorem items_c_no_panic (l : list (option gsitem)) s : items_c l <> Panic s.
 Proof. rewrite items_c_ok. discriminate. Qed.
 (* nil elements are skipped: the list without them gives the same flattened list *)
-Theorem items_c_nil_skipped (a b : list (option gitem)) : items_c (a ++ None :: b) = items_c (a ++ b).
+Theorem items_c_nil_skipped (a b : list (option gsitem)) : items_c (a ++ None :: b) = items_c (a ++ b).
 Proof. rewrite !items_c_ok, !somes_app. reflexivity. Qed.
 (* before the filter (repo 4240852) a nil *Item was dereferenced at 702: the guard dropped, the site is reachable *)
 Example items_unguarded_nil_item : items_unguarded_c [None] = Panic 702 /\ items_c [None] = Ok [].
@@ -35,12 +35,12 @@ Proof. split; reflexivity. Qed.
 
 (* the whole writer on the Go-shaped list *)
 From Astisub Require Import Model.StlC Proofs.StlChk.
-Theorem write_stl_items_c_ok now md (l : list (option gitem)) :
+Theorem write_stl_items_c_ok now md (l : list (option gsitem)) :
   write_stl_items_c now md l = write_stl now md (map item_flat (somes l)).
 Proof. unfold write_stl_items_c. rewrite items_c_ok. cbn [bind]. apply write_stl_c_ok. Qed.
-Theorem write_stl_items_c_no_panic now md (l : list (option gitem)) site : write_stl_items_c now md l <> Panic site.
+Theorem write_stl_items_c_no_panic now md (l : list (option gsitem)) site : write_stl_items_c now md l <> Panic site.
 Proof. rewrite write_stl_items_c_ok, <- write_stl_c_ok. apply write_stl_c_no_panic. Qed.
-Theorem write_stl_items_c_nil_skipped now md (a b : list (option gitem)) :
+Theorem write_stl_items_c_nil_skipped now md (a b : list (option gsitem)) :
   write_stl_items_c now md (a ++ None :: b) = write_stl_items_c now md (a ++ b).
 Proof. rewrite !write_stl_items_c_ok, !somes_app. reflexivity. Qed.
 Theorem write_stl_items_c_all_nil now md n : write_stl_items_c now md (repeat None n) = write_stl now md [].
